@@ -95,6 +95,7 @@ Pool == <<
     MLS(<< << <<0, 0>>, <<1, 1>> >>, <<>>, << <<2, 2>>, <<3, 1>>, <<4, 4>> >> >>), MLS(<<>>),
     MLS(<< << <<0, 0>>, <<3, 0>>, <<3, 3>> >>, << <<3, 3>>, <<0, 3>>, <<0, 0>> >> >>),      \* two open members closing a loop
     Poly(Sq(0, 0, 6), <<>>), Poly(Sq(0, 0, 6), << Sq(1, 1, 1), Sq(3, 3, 2), Sq(1, 4, 1) >>), Poly(<<>>, <<>>),
+    Poly(<<>>, << Sq(1, 1, 1) >>),                  \* no shell but a hole (constructible through Polygon::new): the hole is still traversed and mapped
     MPoly(<< [ext |-> Sq(0, 0, 2), holes |-> <<>>], [ext |-> <<>>, holes |-> <<>>],
              [ext |-> Sq(4, 4, 3), holes |-> << Sq(5, 5, 1) >>] >>), MPoly(<<>>),
     Rc(<<3, 1>>, <<0, 4>>), Rc(<<2, 2>>, <<2, 2>>),
